@@ -425,9 +425,20 @@ var joiners = []canvas.Joiner{canvas.RoundJoin, canvas.BevelJoin, canvas.MiterJo
 var joinNames = []string{"round", "bevel", "miter"}
 
 func checkStroke(r *fw.R, shapeIdx, res int, w float64, view, cap, join int) {
-	sh := shapes[shapeIdx]
-	dpmm := resolutions[res]
-	m := views[view].m
+	strokeCase(r, shapes[shapeIdx], resolutions[res], w, views[view].m, cap, join)
+}
+
+// outsideShapes lie wholly outside the 12x9 image, farther than half the stroke width of 3, while
+// a miter join or a square cap of their stroke reaches into it.
+var outsideShapes = []shape{
+	{"wedge left of the image, tip at (-3,4) pointing right", oracle.OpenData(pts(-8, 2.5, -3, 4, -8, 5.5))},
+	{"wedge below the image, tip at (6,-2.5) pointing up", oracle.OpenData(pts(4.5, -8, 6, -2.5, 7.5, -8))},
+	{"wedge right of the image, tip at (15,5) pointing left", oracle.OpenData(pts(20, 3.5, 15, 5, 20, 6.5))},
+	{"wedge above the image, tip at (5,11.5) pointing down", oracle.OpenData(pts(3.5, 17, 5, 11.5, 6.5, 17))},
+	{"slanted line ending at (-1.8,3) left of the image", oracle.OpenData(pts(-6.6, -2, -1.8, 3))},
+}
+
+func strokeCase(r *fw.R, sh shape, dpmm, w float64, m canvas.Matrix, cap, join int) {
 	style := canvas.DefaultStyle
 	style.Fill = canvas.Paint{}
 	style.Stroke = canvas.Paint{Color: color.RGBA{0, 90, 200, 255}}
@@ -443,6 +454,8 @@ func checkStroke(r *fw.R, shapeIdx, res int, w float64, view, cap, join int) {
 	px := 1 / dpmm
 	nIn, nOut := 0, 0
 	tag := beyondTag(pls)
+	bad, badInterior := 0, 0
+	class, first := "", ""
 	for j := 0; j < img.Bounds().Dy(); j++ {
 		for i := 0; i < img.Bounds().Dx(); i++ {
 			q := oracle.Pt{X: (float64(i) + 0.5) / dpmm, Y: pixelY(img.Bounds().Dy(), j, dpmm)}
@@ -453,20 +466,36 @@ func checkStroke(r *fw.R, shapeIdx, res int, w float64, view, cap, join int) {
 			if oracle.Winding(pls, q) != 0 {
 				nIn++
 				if !(near(got.R, 0, 4) && near(got.G, 90, 4) && near(got.B, 200, 4) && near(got.A, 255, 4)) {
-					r.Violate("stroke-unpainted-inside", fmt.Sprintf("pixel (%d,%d) centre (%.3f,%.3f) is inside the stroke outline but has colour %v%s", i, j, q.X, q.Y, got, borderTag(tag, i, j, img.Bounds().Dx(), img.Bounds().Dy())))
-					return
+					bad++
+					badInterior += interior(i, j, img.Bounds().Dx(), img.Bounds().Dy())
+					if first == "" || (badInterior == 1 && interior(i, j, img.Bounds().Dx(), img.Bounds().Dy()) == 1) {
+						class = "stroke-unpainted-inside"
+						first = fmt.Sprintf("pixel (%d,%d) centre (%.3f,%.3f) is inside the stroke outline but has colour %v", i, j, q.X, q.Y, got)
+					}
 				}
 			} else {
 				nOut++
 				if got.R > 4 || got.G > 4 || got.B > 4 || got.A > 4 {
-					r.Violate("stroke-paints-outside", fmt.Sprintf("pixel (%d,%d) centre (%.3f,%.3f) is outside the stroke outline but has colour %v%s", i, j, q.X, q.Y, got, borderTag(tag, i, j, img.Bounds().Dx(), img.Bounds().Dy())))
-					return
+					bad++
+					badInterior += interior(i, j, img.Bounds().Dx(), img.Bounds().Dy())
+					if first == "" || (badInterior == 1 && interior(i, j, img.Bounds().Dx(), img.Bounds().Dy()) == 1) {
+						class = "stroke-paints-outside"
+						first = fmt.Sprintf("pixel (%d,%d) centre (%.3f,%.3f) is outside the stroke outline but has colour %v", i, j, q.X, q.Y, got)
+					}
 				}
 			}
 		}
 	}
 	if nIn > 0 && nOut > 0 {
 		r.NontrivialIdx()
+	}
+	if bad > 0 {
+		// the border effect (K4) shows within two pixels of the image border only
+		if badInterior > 0 {
+			tag = ""
+		}
+		r.Violate(class, fmt.Sprintf("%d pixels wrong (%d of them more than two pixels from the image border); %s%s", bad, badInterior, first, tag))
+		return
 	}
 	r.Outcome("stroke-ok")
 }
@@ -669,8 +698,18 @@ func families(tier string) []fw.Family {
 	radL := []int{len(lowRes), 3, 3, 2}
 	magScales := []float64{20, 100, 500}
 	radM := []int{4, len(magScales)}
+	radO := []int{len(outsideShapes), nres, 3, 3}
 	return []fw.Family{
 		imageFamily(),
+		{Name: "strokes of paths outside the image whose miter joins or square caps reach into it: shapes x resolutions x caps x joins (w=3)", N: oracle.Prod(radO...),
+			Check: func(i int64, r *fw.R) {
+				g := oracle.Digits(i, radO...)
+				strokeCase(r, outsideShapes[g[0]], resolutions[g[1]], 3, canvas.Identity, g[2], g[3])
+			},
+			Desc: func(i int64) string {
+				g := oracle.Digits(i, radO...)
+				return fmt.Sprintf("stroke %s [%s] w=3 dpmm=%g cap=%s join=%s", outsideShapes[g[0]].name, oracle.Fmt(outsideShapes[g[0]].d), resolutions[g[1]], capNames[g[2]], joinNames[g[3]])
+			}},
 		{Name: "magnifying views: wedge tip on a 20x20 mm canvas at 10 px/mm x 4 directions x Scale {20,100,500}", N: oracle.Prod(radM...),
 			Check: func(i int64, r *fw.R) {
 				g := oracle.Digits(i, radM...)
